@@ -369,6 +369,18 @@ Proof.
       * right. auto 10.
 Qed.
 
+(* bytes that went into the buffer first *)
+Lemma wr_postZ_append c s s2 m m2 t cf acc ae d p e s' :
+  aux s2 = aux s -> cur_flate s2 = cur_flate s -> wire s2 = wire s -> m_id m2 = m_id m ->
+  wr_postZ c s2 m2 t cf (acc ++ d) ae p e s' -> wr_postZ c s m t cf acc ae (d ++ p) e s'.
+Proof.
+  intros HA HCF HW HI (P' & E' & A' & R). split; [exact P'|]. split; [exact E'|]. split; [congruence|].
+  destruct R as [(-> & CF' & fs' & ae' & m' & C1 & C2 & C3 & C4 & C5 & C6 & C7)|(X1 & X2 & X3 & X4 & X5)].
+  - left. split; [reflexivity|]. split; [congruence|]. exists fs', ae', m'. rewrite <- app_assoc in C7.
+    split; [exact C1|]. split; [congruence|]. split; [exact C3|]. split; [congruence|]. auto.
+  - right. split; [exact X1|]. split; [exact X2|]. split; [exact X3|]. split; [congruence|exact X5].
+Qed.
+
 Lemma read_from_liveZ c : capok c -> 0 < cap c -> forall fuel chunks s m t cf acc ae e s',
   Pz s -> werr s = None -> cur s = Some m -> mwz c m -> vty t -> ZOpen t cf acc ae m ->
   2 * blen (concat chunks) + 2 * N.of_nat (length chunks) + (if cap c - blen (m_buf m) =? 0 then 1 else 0) + 1 <= N.of_nat fuel ->
@@ -379,7 +391,14 @@ Proof.
   - exfalso. lia.
   - cbn [read_from] in H. rewrite HC in H.
     destruct (cap c - blen (m_buf m) =? 0) eqn:ER.
-    + destruct (flush_frame c false [] m s) as [e1 s1] eqn:EF.
+    + (* the buffer is full: one byte of lookahead *)
+      destruct chunks as [|[|b ch'] rest].
+      { inversion H; subst e s'. cbn [concat]. apply wr_postZ_done; assumption. }
+      { destruct rest as [|r1 rest1].
+        - inversion H; subst e s'. cbn [concat app]. apply wr_postZ_done; assumption.
+        - cbn [concat app]. apply (IH (r1 :: rest1) s m t cf acc ae e s' HP HE HC HM V HO); [|exact H].
+          cbn [concat length app] in HF |- *. rewrite ER. rewrite ?app_nil_l in HF. lia. }
+      destruct (flush_frame c false [] m s) as [e1 s1] eqn:EF.
       assert (Hs : small []) by (unfold small; cbn; lia).
       destruct (is_control_ty t) eqn:ET.
       * destruct HO as [(-> & B & -> & D)|(A & _)]; [|congruence].
@@ -390,11 +409,35 @@ Proof.
         right. auto 10.
       * destruct (flush_openZ c [] m s e1 s1 t cf acc ae HCap HP HE HM V ET HO (fun _ => eq_refl) Hs EF)
           as (-> & P1 & E1 & A1 & CF1 & f & m1 & Fwf & FW & FEv & FC & FId & FM & FB & FT & FCm).
-        change (concat chunks) with ([] ++ concat chunks).
-        apply (wr_post_flush_thenZ c s s1 s' m m1 t cf acc ae f [] (concat chunks) e FW Fwf A1 CF1 FEv FId); [|exact ET].
-        apply (IH chunks s1 m1 t cf (acc ++ []) _ e s' P1 E1 FC FM V); [| |exact H].
-        -- right. split; [exact ET|]. split; [exact FT|]. split; [exact FCm|]. exists (acc ++ []). split; [reflexivity|]. rewrite FB, !app_nil_r. reflexivity.
-        -- rewrite FB. change (blen []) with 0. replace (cap c - 0 =? 0) with false by lia. lia.
+        unfold put_byte in H. rewrite FC in H.
+        set (m2 := m1 <| m_buf := m_buf m1 ++ [b] |>) in *.
+        set (s2 := s1 <| cur := Some m2 |>) in *.
+        assert (HB : blen (m_buf m2) = 1) by (unfold m2; wsimpl; rewrite FB; reflexivity).
+        assert (P2 : Pz s2) by (destruct P1; constructor; assumption).
+        assert (M2 : mwz c m2).
+        { destruct FM as (M1 & M3). split; [exact M1|]. rewrite HB. lia. }
+        assert (O1 : ZOpen t cf (acc ++ []) (Some (t, cf, acc ++ [])) m1).
+        { right. split; [exact ET|]. split; [exact FT|]. split; [exact FCm|]. exists (acc ++ []).
+          split; [reflexivity|]. rewrite FB, !app_nil_r. reflexivity. }
+        assert (O2 : ZOpen t cf ((acc ++ []) ++ [b]) (Some (t, cf, acc ++ [])) m2) by (apply ZOpen_append; exact O1).
+        change (concat ((b :: ch') :: rest)) with ([] ++ ([b] ++ (ch' ++ concat rest))).
+        apply (wr_post_flush_thenZ c s s1 s' m m1 t cf acc ae f [] _ e FW Fwf A1 CF1 FEv FId); [|exact ET].
+        apply (wr_postZ_append c s1 s2 m1 m2 t cf (acc ++ []) _ [b] _ e s'); try reflexivity.
+        assert (Hcase : (ch' = [] /\ rest = [] /\ e = None /\ s' = s2) \/
+                        read_from fuel c (match ch' with [] => rest | _ => ch' :: rest end) s2 = (e, s')).
+        { destruct ch' as [|b1 ch1]; [destruct rest as [|r1 rest1]|];
+            [left; inversion H; auto|right; exact H|right; exact H]. }
+        clear H. destruct Hcase as [(-> & -> & -> & ->)|H].
+        { cbn [concat app]. apply wr_postZ_done; try assumption. reflexivity. }
+        set (chunks' := match ch' with [] => rest | _ => ch' :: rest end) in *.
+        assert (HCC : concat chunks' = ch' ++ concat rest) by (subst chunks'; destruct ch'; reflexivity).
+        rewrite <- HCC.
+        apply (IH chunks' s2 m2 t cf _ _ e s' P2 E1 eq_refl M2 V O2); [|exact H].
+        rewrite HCC, blen_app, HB. cbn [concat length] in HF. rewrite blen_app in HF.
+        assert (HL : N.of_nat (length chunks') <= N.of_nat (length rest) + 1).
+        { subst chunks'. destruct ch'; cbn [length]; lia. }
+        assert (HB1 : blen (b :: ch') = 1 + blen ch') by (unfold blen; cbn [length]; lia).
+        destruct (cap c - 1 =? 0); lia.
     + destruct chunks as [|ch rest].
       { inversion H; subst e s'. cbn [concat]. apply wr_postZ_done; assumption. }
       set (n := N.min (cap c - blen (m_buf m)) (blen ch)) in *.
